@@ -402,6 +402,32 @@ def atoi_tokens(I, args, ins):
 STUBS['strconv.Atoi'] = atoi_tokens
 
 
+@stub('strconv.ParseInt')
+def parse_int(I, args, ins):
+    """strconv.ParseInt(s, 10 or 0, 64 or 0): same reading of the numeral as Atoi."""
+    s, base_, bits = args[0], args[1], args[2]
+    if isinstance(base_, int) and base_ in (0, 10) and isinstance(bits, int) and bits in (0, 64):
+        if isinstance(s, str) and base_ == 0 and (s.lower().startswith(('0x', '0b', '0o')) or (len(s) > 1 and s[0] == '0') or '_' in s):
+            raise Inconclusive('strconv.ParseInt with a base prefix')
+        return atoi_tokens(I, [s], ins)
+    raise Inconclusive('strconv.ParseInt with base %r bits %r' % (base_, bits))
+
+
+@stub('strconv.ParseUint')
+def parse_uint(I, args, ins):
+    s, base_, bits = args[0], args[1], args[2]
+    if isinstance(base_, int) and base_ == 10 and isinstance(bits, int) and bits in (0, 64):
+        at = _digit_atoms(s)
+        if at is not None and at[0][0] == 'c' and at[0][1] in '+-':
+            return TupleV((0, I.ctx.new_error('atoi', msg='invalid syntax')))
+        if isinstance(s, str) and s[:1] in ('+', '-'):
+            return TupleV((0, I.ctx.new_error('atoi', msg='invalid syntax')))
+        if at is not None and len(at) >= 19:
+            raise Inconclusive('strconv.ParseUint of a numeral that may exceed int64')
+        return atoi_tokens(I, [s], ins)
+    raise Inconclusive('strconv.ParseUint with base %r bits %r' % (base_, bits))
+
+
 @stub('strconv.ParseFloat')
 def parse_float(I, args, ins):
     """Correctly rounded decimal -> float64 (the documented contract of strconv.ParseFloat)."""
